@@ -908,3 +908,23 @@ def _lsum_ext_proof():
 
 
 LEMMA_PROOFS["L_lsum_ext"] = _lsum_ext_proof
+
+
+# ----------------------------------------------------------------------------- data-keyed fit tokens (LocalAnomalyScore: cost of pooled rows)
+# FITTOK(kind, data): the token of a fit of the cost configuration `kind` on the data named `data` (evaluate is a function of the last fit's
+# configuration and data). POOLID(data, a, b, c, d) names the array made of the rows [a, b) followed by the rows [c, d) of `data`.
+_FITTOK = z3.Function("FITTOK", _I, _I, _I)
+_POOLID = z3.Function("POOLID", _I, _I, _I, _I, _I, _I)
+SPEC_FUNCS["FITTOK"] = lambda eng, st, kind, data: _FITTOK(to_z3(kind), to_z3(data))
+SPEC_FUNCS["POOLID"] = lambda eng, st, data, a, b, c, d: _POOLID(to_z3(data), to_z3(a), to_z3(b), to_z3(c), to_z3(d))
+SPEC_FUNCS["DATAID"] = lambda eng, st, X: _data_id(eng, st, X)
+
+
+@spec("POOL_NAMED")
+def _pool_named(eng, st, arr, X, a, b, c, d):
+    """Naming of a pooled array: its identity is POOLID(DATAID(X), a, b, c, d). Sound as a definition because the contents of `arr` are a function of
+    (X, a, b, c, d) -- which the accompanying ghost assert proves elementwise."""
+    eng.note_assumption("definition: an array proved to consist of the rows [a,b) and [c,d) of X is named POOLID(DATAID(X), a, b, c, d)")
+    return _data_id(eng, st, arr) == _POOLID(_data_id(eng, st, X), to_z3(a), to_z3(b), to_z3(c), to_z3(d))
+_QOF = z3.Function("QOF", _I, _I, _I)
+SPEC_FUNCS["QOF"] = lambda eng, st, kind, p: _QOF(to_z3(kind), to_z3(p))      # number of output columns of configuration `kind` on p-column data
